@@ -1009,6 +1009,35 @@ func linesMsg(onPack func(*Reporter, *T, *T), onUnpack func(*Reporter, *T, []byt
 func linesC08(lines []string, rep *Reporter) {
 	for _, l := range lines {
 		t := strings.Split(l, " ")
+		if len(t) == 5 && t[0] == "P" && t[2] == "dec" {
+			// a length-prefix decode on which model and implementation differ: put those prefix bytes in front
+			// of a field with a small declared maximum and see whether Unpack enforces it against the length
+			// the prefix denotes (read from the documented format, not through the library)
+			pre, ok := impl.UnHex(t[4])
+			if !ok || impl.Prefixer(t[1]) == nil || t[1] == "none" || strings.HasSuffix(t[1], ".F") {
+				continue
+			}
+			want, wantRead, numeric, known := refPrefixNumber(t[1], pre)
+			if !known || !numeric || wantRead > len(pre) {
+				continue
+			}
+			for _, fmax := range []int{10, 99} {
+				if want.IsInt64() && want.Int64() <= int64(fmax) {
+					continue
+				}
+				wire := append(append([]byte{}, pre[:wantRead]...), bytes.Repeat([]byte{'A'}, 120)...)
+				fl := fmt.Sprintf("F p(b,%d,binary,%s,nil,d) unpack %s", fmax, t[1], impl.Hex(wire))
+				res := impl.Run(fl)
+				rep.Case(fl)
+				if strings.HasPrefix(res, "ok ") {
+					rep.Viol("Unpack accepted a field whose announced length exceeds the declared maximum", fl,
+						fmt.Sprintf("the prefix denotes %s, declared maximum %d, result %s", want, fmax, res))
+				} else if res == "panic" {
+					rep.Viol("Unpack panicked on an announced length instead of rejecting it with an error", fl, "")
+				}
+			}
+			continue
+		}
 		if len(t) != 4 || (t[0] != "F" && t[0] != "M") {
 			continue
 		}
